@@ -35,7 +35,9 @@ MANIFEST = {
             '(T, j), j < N_T, N_T being what the count pass allocated), any_interleaving (the fill threads have disjoint footprints, so '
             'by Par.drf_any_schedule every schedule that lets the threads finish leaves row j of the filter in cell (T, j) and nothing '
             'else), concat_correct / concat_split_in_range (fast_concatenate = a1 ++ a2 with the writes 0..N1+N2-1 each once and '
-            '1 <= Nthread1 <= Nthread-1 from the split formula regenerated from the source), empty_hosts, searchsorted_parallel_correct.  '
+            '1 <= Nthread1 <= Nthread-1 from the split formula regenerated from the source), empty_hosts, searchsorted_parallel_correct, '
+            'rint_linspace_blocks_good / two_pass_with_linspace_blocks (the block table np.rint(np.linspace(0, H, Nthread+1)) in exact '
+            'arithmetic meets the block-table hypothesis for every H >= 0 and Nthread >= 1, so no hypothesis is left on the blocks).  '
             'The model is tied to the code by the skeleton checks of the generators and by the correspondence run (bitwise equality of all '
             'columns across 1..16 threads, model = implementation on ids / order / Ncent).',
     'note': 'code/fill are abstract (their regenerated text is the subject of C09).  Only the fill pass is put through Par.v; the count '
